@@ -427,29 +427,30 @@ Qed.
 
 Lemma do_ev_watchers x e : watchers (do_ev x e) = watchers e.
 Proof.
-  destruct x; cbn; auto. unfold do_fire.
+  destruct x as [c|w|]; cbn; auto. unfold do_fire.
   destruct (nth_error (watchers e) w) as [[c k]|]; auto.
   destruct (is_cancelled e c && negb (mem w (fired e))); auto.
 Qed.
 Lemma do_ev_ncells x e : ncells (do_ev x e) = ncells e.
 Proof.
-  destruct x; cbn; auto. unfold do_fire.
+  destruct x as [c|w|]; cbn; auto. unfold do_fire.
   destruct (nth_error (watchers e) w) as [[c k]|]; auto.
   destruct (is_cancelled e c && negb (mem w (fired e))); auto.
 Qed.
 Lemma do_ev_cancel_mono x e c : is_cancelled e c = true -> is_cancelled (do_ev x e) c = true.
 Proof.
-  intros A. destruct x; cbn.
+  intros A. destruct x as [c0|w|]; cbn.
   - unfold is_cancelled, mem in *. cbn. rewrite A. apply orb_true_r.
   - unfold do_fire. destruct (nth_error (watchers e) w) as [[c' k]|]; auto.
     destruct (is_cancelled e c' && negb (mem w (fired e))); auto.
+  - auto.
 Qed.
 
 Lemma do_ev_ok x e : env_ok e -> env_ok (do_ev x e).
 Proof.
   intros [A B]. split.
   - intros w c k X. rewrite do_ev_watchers in X. rewrite do_ev_ncells. eauto.
-  - intros k X. destruct x as [c0|w0].
+  - intros k X. destruct x as [c0|w0|]; [| |apply B; exact X].
     + cbn in *. unfold cell_set in *. cbn in X. destruct (B k X) as (w & c & W & C).
       exists w, c. split; auto. apply (do_ev_cancel_mono (Cancel c0)); auto.
     + cbn in *. unfold do_fire in *.
@@ -846,7 +847,7 @@ Section Foreign.
   Notation ev := (eval cfg (Some k0) cx).
 
   Definition own (x : VmRun.ev) : bool :=
-    match x with Cancel c => Nat.eqb c cx | Fire v => Nat.eqb v w end.
+    match x with Cancel c => Nat.eqb c cx | Fire v => Nat.eqb v w | Reenter => true end.
 
   Definition erel (e1 e2 : env) : Prop :=
     is_cancelled e1 cx = is_cancelled e2 cx /\ cell_set e1 k0 = cell_set e2 k0 /\
@@ -856,7 +857,7 @@ Section Foreign.
 
   Lemma do_ev_erel x e1 e2 : erel e1 e2 -> erel (do_ev x e1) (if own x then do_ev x e2 else e2).
   Proof.
-    intros (A & B & C & D & E & F). destruct x as [c|v]; cbn [own do_ev].
+    intros (A & B & C & D & E & F). destruct x as [c|v|]; cbn [own do_ev]; [| |repeat split; auto].
     - destruct (Nat.eqb_spec c cx) as [->|NE].
       + unfold erel, do_cancel, is_cancelled, cell_set in *. cbn [cancelled setcells fired watchers].
         rewrite !mem_cons, Nat.eqb_refl. cbn [orb]. repeat split; auto.
